@@ -108,7 +108,8 @@ class Multiplication:
     offset = 0
     for i in range(first,factor+first-1):
       name = "{}*{}".format(segment_name, i+offset)
-      while name in self.names:
+      # (neither in use nor mentioned by a line read so far)
+      while name in self.names or self.line(name) is not None:
         offset+=1
         name = "{}*{}".format(segment_name, i+offset)
       retval.append(name)
